@@ -1,6 +1,7 @@
 (* Extraction of the codec model: ExtrOcamlBasic only (bool, option, list, prod,
    unit, sumbool mapped to OCaml's); nat, positive, N, Z, byte stay inductives. *)
 From Coq Require Extraction ExtrOcamlBasic.
-From Falco Require Import Base.Res Base.Bytes Base.Utf8 Model.CodecAst Model.Codec.
+From Falco Require Import Base.Res Base.Bytes Base.Utf8 Model.CodecAst Model.Codec Model.CodecWf Model.CodecPlugin.
 Extraction Language OCaml.
-Extraction "codec_model.ml" encode decode enc_all dec_all n2b b2n.
+Extraction "codec_model.ml" encode decode enc_all dec_all n2b b2n
+  wfb_block wfb_stmt encode1 read_request classify kind_of kind_name all_kinds lintable.
